@@ -938,7 +938,7 @@ func run(r *vrt.Run) {
 
 	scale := 1
 	if !r.Quick() {
-		scale = 60
+		scale = 40
 	}
 	vrt.Par(60000*scale, 0, func(i int) { c.baseFee(i) })
 	vrt.Par(2000*scale, 0, func(i int) { c.londonTransition(i) })
